@@ -229,6 +229,71 @@ def check_path(word, acc, only=None):
                 acc.violation('not_global_maximum', sig, case, observed=[gmax, gtmax, imax], expected=dmax)
 
 
+def check_special_segments(acc, only=None):
+    """(a) zero-length Lines (Python complex and numpy complex128 coordinates, as the library's own transforms
+    produce them): both extremes are the distance to that point; (b) straight lines stored as quadratics /
+    cubics with control points at 1/2 resp. 1/3, 2/3 of the chord COMPUTED IN FLOATS for non-dyadic chords: the
+    leading coefficients of |B(t)-z|^2 are then rounding residue (1e-17 .. 1e-30), which a root finder must
+    survive"""
+    zs = [0.7 + 1.9j, -3.1 + 0.4j, 10.3 - 7.7j]
+    for form in ('python', 'numpy', 'rotated_path'):
+        for p0 in (1.5 - 0.5j, 0.1 + 0.3j):
+            if form == 'python':
+                seg = Line(p0, p0)
+            elif form == 'numpy':
+                seg = Line(np.complex128(p0), np.complex128(p0))
+            else:
+                seg = Path(Line(p0 - 1, p0), Line(p0, p0), Line(p0, p0 + 1j)).rotated(30, origin=0j)[1]
+            for z in zs:
+                case = {'what': 'special', 'kind': 'zero_length_line', 'form': form, 'p': core.jz(p0), 'z': core.jz(z)}
+                if only and case != only:
+                    continue
+                acc.case(case, cls='special/zero_length_line', nontrivial=False)
+                r = outcome(lambda: seg.radialrange(z))
+                want = abs(complex(seg.start) - z)
+                ok = r[0] == 'ok'
+                if ok:
+                    try:
+                        (a, ta), (b, tb) = r[1]
+                        ok = abs(float(a) - want) <= 1e-12 and abs(float(b) - want) <= 1e-12 and 0 <= float(ta) <= 1 and 0 <= float(tb) <= 1
+                    except Exception:
+                        ok = False
+                if not ok:
+                    acc.violation('not_global_minimum', {'kind': 'L', 'family': 'zero_length', 'form': form}, case, observed=repr(r)[:200], expected=want)
+    k = 0
+    for i in range(0, 11, 2):
+        for j in range(1, 11, 3):
+            for di in range(1, 8, 2):
+                for dj in range(-5, 6, 5):
+                    a = complex(0.1 * i, 0.1 * j)
+                    b = complex(0.1 * i + 0.3 * di, 0.1 * j + 0.7 * dj + 0.1)
+                    k += 1
+                    for deg in (2, 3):
+                        if deg == 2:
+                            seg = QuadraticBezier(a, (a + b) / 2, b)
+                        else:
+                            seg = CubicBezier(a, a + (b - a) / 3, a + 2 * (b - a) / 3, b)
+                        m = a + 0.37 * (b - a)
+                        n_ = 1j * (b - a) / abs(b - a)
+                        for z in (m + 3.58 * n_, m - 0.01 * n_, a - 0.5 * (b - a) + 0.2 * n_):
+                            case = {'what': 'special', 'kind': 'elevated_line', 'a': core.jz(a), 'b': core.jz(b), 'degree': deg, 'z': core.jz(z)}
+                            if only and case != only:
+                                continue
+                            size = seg_size(seg)
+                            (dmin, tmin), (dmax, tmax) = exact_extremes(seg, z)
+                            acc.case(case, cls='special/elevated_line', nontrivial=1e-6 < tmin < 1 - 1e-6)
+                            r = outcome(lambda: seg.radialrange(z))
+                            sig = {'kind': 'Q' if deg == 2 else 'C', 'family': 'elevated_line'}
+                            if r[0] != 'ok':
+                                acc.violation('radialrange_raises', dict(sig, exc=r[1]), case, observed=r)
+                                continue
+                            (gmin, gtmin), (gmax, gtmax) = r[1]
+                            if float(gmin) > dmin + 1e-6 * size:
+                                acc.violation('not_global_minimum', sig, case, observed=[float(gmin), float(gtmin)], expected=[dmin, tmin])
+                            if float(gmax) < dmax - 1e-6 * size:
+                                acc.violation('not_global_maximum', sig, case, observed=[float(gmax), float(gtmax)], expected=[dmax, tmax])
+
+
 def check_long(n, kinds, acc, only=None):
     """paths of n segments for every n in a list bracketing the powers of two (a pruned or vectorised
     reduction has a size threshold): Path-level answers against the reduction over the segments' own
@@ -282,6 +347,7 @@ def shards(tier, seed):
     rots = ROTS if tier == 'quick' else ROTS + [180, 211, 300]
     out = [{'what': 'segment', 'shape': n, 'rot': r} for n in list(AB.LINES) + list(AB.QUADS) + list(AB.CUBICS) for r in rots]
     out += [{'what': 'path', 'word': list(w)} for w in PATHS]
+    out.append({'what': 'special'})
     from mc import longpaths as LP
     out += [{'what': 'long', 'n': n, 'kinds': k} for n in (LP.SIZES_QUICK if tier == 'quick' else LP.SIZES_THOROUGH)
             for k in (('L', 'LQC') if tier == 'quick' else ('L', 'Q', 'C', 'LQC', 'CL'))]
@@ -298,6 +364,8 @@ def run_shard(desc, tier, seed):
     if desc['what'] == 'segment':
         check_segment(desc['shape'], desc['rot'], acc, scale=desc.get('scale', 1.0), shift=complex(desc.get('shift', 0j)),
                       lattice_n=desc.get('lattice_n', 4))
+    elif desc['what'] == 'special':
+        check_special_segments(acc)
     elif desc['what'] == 'long':
         check_long(desc['n'], desc['kinds'], acc)
     else:
@@ -306,7 +374,7 @@ def run_shard(desc, tier, seed):
 
 
 def expected_classes(tier):
-    out = ['path', 'long/ge32', 'long/lt32']
+    out = ['path', 'long/ge32', 'long/lt32', 'special/zero_length_line', 'special/elevated_line']
     for k in 'LQC':
         out += ['%s/far' % k, '%s/on_curve' % k, '%s/near' % k, '%s/beyond_end' % k, '%s/lattice' % k]
     out += ['Q/centre_of_curvature', 'C/centre_of_curvature', 'Q/evolute', 'C/evolute']
@@ -323,7 +391,9 @@ def space(tier, seed):
 
 def replay(case):
     acc = core.ReplayAcc()
-    if case['what'] == 'long':
+    if case['what'] == 'special':
+        check_special_segments(acc, only=case)
+    elif case['what'] == 'long':
         check_long(case['n'], case['kinds'], acc, only=case['z'])
     elif case['what'] == 'segment':
         check_segment(case['shape'], case['rot'], acc, only=case['z'], scale=case.get('scale', 1.0),
